@@ -327,13 +327,25 @@ impl<const N: usize, I> ARemapper for BRemapperImpl<'_, '_, N, I> {
 	}
 }
 
+/// What a search for one field or method has seen so far.
+#[derive(Default)]
+struct SearchState<'p> {
+	/// The classes whose super types are being searched right now. Meeting one of them again means that the
+	/// inheritance information is cyclic; that's an error (the search would never end otherwise).
+	path: Vec<&'p ObjClassNameSlice>,
+	/// The classes that were searched completely without finding anything. They are not searched a second time:
+	/// otherwise a class that is reachable on many paths (diamonds on top of diamonds) is searched once per path.
+	failed: IndexSet<&'p ObjClassNameSlice>,
+}
+
 impl<'i, const N: usize, I: SuperClassProvider> BRemapperImpl<'_, 'i, N, I> {
-	/// `path` holds the classes whose super types are being searched right now. Meeting one of them again means
-	/// that the inheritance information is cyclic; that's an error (the search would never end otherwise).
-	fn map_field_fail_on_path<'p>(&'p self, path: &mut Vec<&'p ObjClassNameSlice>, owner_name: &'p ObjClassNameSlice,
+	fn map_field_fail_in<'p>(&'p self, state: &mut SearchState<'p>, owner_name: &'p ObjClassNameSlice,
 			field_name: &FieldNameSlice, field_desc: &FieldDescriptorSlice) -> Result<Option<FieldNameAndDesc>> {
-		if path.contains(&owner_name) {
+		if state.path.contains(&owner_name) {
 			bail!("cyclic inheritance: class {owner_name:?} is a super type of itself");
+		}
+		if state.failed.contains(owner_name) {
+			return Ok(None);
 		}
 
 		if let Some(class) = self.classes.get(owner_name) {
@@ -347,23 +359,27 @@ impl<'i, const N: usize, I: SuperClassProvider> BRemapperImpl<'_, 'i, N, I> {
 
 		// the super types are searched as well when the owner itself has no mapping
 		if let Some(super_classes) = self.inheritance.get_super_classes(owner_name)? {
-			path.push(owner_name);
+			state.path.push(owner_name);
 			for super_class in super_classes {
-				if let Some(remapped) = self.map_field_fail_on_path(path, super_class, field_name, field_desc)? {
+				if let Some(remapped) = self.map_field_fail_in(state, super_class, field_name, field_desc)? {
 					return Ok(Some(remapped));
 				}
 			}
-			path.pop();
+			state.path.pop();
 		}
 
+		state.failed.insert(owner_name);
 		Ok(None)
 	}
 
-	/// See [`Self::map_field_fail_on_path`].
-	fn map_method_fail_on_path<'p>(&'p self, path: &mut Vec<&'p ObjClassNameSlice>, owner_name: &'p ObjClassNameSlice,
+	/// See [`Self::map_field_fail_in`].
+	fn map_method_fail_in<'p>(&'p self, state: &mut SearchState<'p>, owner_name: &'p ObjClassNameSlice,
 			method_name: &MethodNameSlice, method_desc: &MethodDescriptorSlice) -> Result<Option<MethodNameAndDesc>> {
-		if path.contains(&owner_name) {
+		if state.path.contains(&owner_name) {
 			bail!("cyclic inheritance: class {owner_name:?} is a super type of itself");
+		}
+		if state.failed.contains(owner_name) {
+			return Ok(None);
 		}
 
 		if let Some(class) = self.classes.get(owner_name) {
@@ -377,27 +393,28 @@ impl<'i, const N: usize, I: SuperClassProvider> BRemapperImpl<'_, 'i, N, I> {
 
 		// the super types are searched as well when the owner itself has no mapping
 		if let Some(super_classes) = self.inheritance.get_super_classes(owner_name)? {
-			path.push(owner_name);
+			state.path.push(owner_name);
 			for super_class in super_classes {
-				if let Some(remapped) = self.map_method_fail_on_path(path, super_class, method_name, method_desc)? {
+				if let Some(remapped) = self.map_method_fail_in(state, super_class, method_name, method_desc)? {
 					return Ok(Some(remapped));
 				}
 			}
-			path.pop();
+			state.path.pop();
 		}
 
+		state.failed.insert(owner_name);
 		Ok(None)
 	}
 }
 
 impl<'i, const N: usize, I: SuperClassProvider> BRemapper for BRemapperImpl<'_, 'i, N, I> {
 	fn map_field_fail(&self, owner_name: &ObjClassNameSlice, field_name: &FieldNameSlice, field_desc: &FieldDescriptorSlice) -> Result<Option<FieldNameAndDesc>> {
-		self.map_field_fail_on_path(&mut Vec::new(), owner_name, field_name, field_desc)
+		self.map_field_fail_in(&mut SearchState::default(), owner_name, field_name, field_desc)
 	}
 
 	fn map_method_fail(&self, owner_name: &ObjClassNameSlice, method_name: &MethodNameSlice, method_desc: &MethodDescriptorSlice)
 			-> Result<Option<MethodNameAndDesc>> {
-		self.map_method_fail_on_path(&mut Vec::new(), owner_name, method_name, method_desc)
+		self.map_method_fail_in(&mut SearchState::default(), owner_name, method_name, method_desc)
 	}
 }
 
